@@ -49,7 +49,7 @@ def eval_cover(ctx):
         def run():
             if name == "string":
                 for r, lim, pz, u8 in stringx.string_cases():
-                    out = stringx.evaluate(ctx, "string", r, lim, pz, u8)
+                    out = stringx.evaluate(ctx, "string", r, lim, pz, u8 is not False, padded=(u8 != "unpadded"))
                     if "panic" in out:
                         return "string(bytes left=%d, limit=%s, first NUL at %s): %s" % (r, lim, pz, out["panic"])
                 return None
@@ -76,7 +76,25 @@ def eval_cover(ctx):
             pb = headerx.load_problem(ctx, name)
             return pb if pb and "panics" in pb else None
         return run
-    table = {"Decoder::string": (("call", "assert"), dec("string")), "Decoder::words": (("call", "assert"), dec("words")),
+    def ext_track():
+        from . import extx
+        for name, opcode, rid, ops, want in extx.track_cases():
+            res = extx.track_eval(ctx, opcode, rid, ops)
+            if res[0] == "panic":
+                return "%s: %s" % (name, res[1])
+        return None
+
+    def dis_ext():
+        from . import disx
+        for kinds in ([], ["IdRef"], ["IdRef", "LiteralExtInstInteger"], ["IdRef", "LiteralExtInstInteger", "IdRef", "IdRef"], ["LiteralBit32", "IdRef", "IdRef"]):
+            for have in (True, False):
+                for resolved in (True, False):
+                    r, _ops = disx.ext_inst(ctx, kinds, have, resolved)
+                    if isinstance(r, tuple) and r and r[0] == "panic":
+                        return "%s: %s" % (kinds, r[1])
+        return None
+    table = {"ExtInstSetTracker::track": (("call",), ext_track), "disassemble::disas_ext_inst": (("call",), dis_ext),
+             "Decoder::string": (("call", "assert"), dec("string")), "Decoder::words": (("call", "assert"), dec("words")),
              "Decoder::bit64": (("call",), dec("bit64")), "Decoder::word": (("call", "assert"), dec("id")),
              "Parser::parse_header": (("call",), hdr), "Parser::parse_inst": (("call", "assert:Overflow(Sub)"), inst), "loader::load_bytes": (("call",), load("load_bytes")),
              "loader::load_words": (("call",), load("load_words"))}
@@ -358,14 +376,14 @@ def discharge(ctx, chk, g, with_main=False):
                     badc.append((kinds, "not analysable: %s" % ex))
     chk.check(R3, not badc, "disas_ext_inst", "disas_ext_inst can panic: %s" % badc[:2], raw.where("disas_ext_inst", None, "disassemble.rs"), key="C04:disas_ext_inst")
 
-    # disas_constant caller
-    calls = []
-    for im in ctx.rspirv.impls("rspirv::binary::disassemble", "Module", "Disassemble"):
-        for f_ in im["items"]:
-            if f_["kind"] == "fn":
-                calls += sites(f_["body"], lambda n: n[0] == "call" and path_of(n[1]) == "disas_constant")
-    ok = len(calls) == 1 and any(re.match(r"^\w+\.class\.opcode matches spirv::Op::Constant$", c) for c in calls[0][1])
-    chk.check(R3, ok, "disas_constant_caller", "disas_constant call sites: %s" % [c for _, c in calls], raw.where("disassemble", "Module", "disassemble.rs"))
+    # disas_constant is reached only for OpConstant: on the abstract module exactly the constant goes through the typed renderer
+    from . import walkx
+    try:
+        typed = [p_[2] for p_ in walkx.module_disassemble(ctx, True) if isinstance(p_, tuple) and len(p_) > 2 and p_[1] == "typed-constant"]
+        why = "instructions rendered by disas_constant on the abstract module: %s" % typed
+    except Anchor as ex:
+        typed, why = None, "Module::disassemble not analysable: %s" % ex
+    chk.check(R3, typed == ["CONSTANT"], "disas_constant_caller", why, raw.where("disassemble", "Module", "disassemble.rs"))
 
     # Dim prefix
     dim = spirv_enums(ctx).get("Dim")
